@@ -1,7 +1,7 @@
 #!/bin/sh
-# tools/sweep_seeds.sh [tier]  - applies every seeded change to /repo in turn, runs its property's check, reverts.
+# tools/sweep_seeds.sh [tier] [seed] [output json]  - applies every seeded change to /repo in turn, runs its property's check, reverts.
 # Writes /verif/seeded/RESULTS.json  {seed id: {"detected": bool, "keys": [...], "exit": n}}
-tier="${1:-quick}"
+tier="${1:-quick}"; seed="${2:-0}"; outjson="${3:-seeded/RESULTS.json}"
 cd "$(dirname "$0")/.." || exit 2
 # works on a scratch worktree of /repo's HEAD (outside /repo and /verif), removed at the end
 WT=/tmp/wt/sweep
@@ -20,7 +20,7 @@ for d in seeded/C*-m*; do
     res="{\"detected\": null, \"note\": \"patch does not apply to /repo HEAD\"}"
   else
     git -C "$WT" apply "$PWD/$d/patch.diff"
-    out=$(./check "$pid" --tier "$tier" 2>&1); rc=$?
+    out=$(./check "$pid" --tier "$tier" --seed "$seed" 2>&1); rc=$?
     git -C "$WT" checkout -- .
     keys=$(echo "$out" | grep -A1 '^VIOLATION' | grep -v '^VIOLATION\|^--' | sed 's/^  //' | cut -d' ' -f1 | sort -u | head -6 | /venv/bin/python -c "import sys,json; print(json.dumps([l.strip() for l in sys.stdin if l.strip()]))")
     det=false; [ "$rc" = "1" ] && det=true
@@ -31,6 +31,6 @@ for d in seeded/C*-m*; do
   echo "$id $res"
 done
 echo "" >> "$tmp"; echo "}" >> "$tmp"
-mv "$tmp" seeded/RESULTS.json
+mv "$tmp" "$outjson"
 git -C /repo worktree remove --force "$WT"
 rm -rf "$VERIF_SIDE"
